@@ -181,6 +181,8 @@ class C14(Check):
                     rr = G.pick_snippet(random.Random(f"c14-seq-{si}-{ci}"), cid)
                     files.append({"path": f"pkg/m{ci}.py", "snippets": [rr["idx"]], "layout": {}})
                 files.append({"path": names[mn]["file"], "manifest": names[mn]["idx"]})
+                if si % 2 == 0 and names[mn]["file"] != "requirements.txt":
+                    files.append({"path": "requirements.txt", "manifest": names["req-comments"]["idx"]})  # a second store
                 exps.append({"kind": "sequence", "include": seq, "files": files, "enum_seeds": [None, None], "faults": "none",
                              "sched": {"seed": si, "policy": "fifo", "line_p": 0.0}})
         return exps
